@@ -47,6 +47,8 @@ SHAPES = {
     'y3': {'steps': [S([['yield'], ['out', 'x', 1], ['yield'], ['soon', 'ok', 'c1'], ['yield']], ['continue', 1, [], {}], True), S([['yield']], ['value', 2], True)]},
     'sync': {'steps': [S([['soon', 'ok', 'c2']], ['continue', 1, [1], {}]), S([['out', 'y', 2]], ['value', 3])]},
     'gate': {'steps': [S([['gate', 'g1'], ['yield']], ['wait', 1, None, None], True), S([], ['value', 4])]},
+    # application-defined WAITING state that runs process code in execute(); callbacks that are async callable objects
+    'cwait': {'steps': [S([['soon', 'async_obj', 'ao1'], ['yield']], ['wait', 1, None, None], True), S([['soon', 'async_obj', 'ao2']], ['value', 6])], 'sampling_waiting': True},
     'launcher': {'steps': [S([['launch', CHILD, 50], ['yield'], ['launch', CHILD_WAITS, 51], ['yield']], ['value', 5], True)]},
     'failing': {'steps': [S([['yield'], ['raise', 'x']], ['value', 0], True)]},
 }
